@@ -125,7 +125,7 @@ def extract_path(message):
 
 def make_dag(rng, nmax=10):
   opts = gen.Opts(max_nodes=rng.choice([3, 6, nmax]), max_depth=4, p_share=0.3, p_clone=0.05,
-                  fns=FAIL_FNS, lattice=0.0, p_leaf=0.3,
+                  fns=FAIL_FNS, lattice=0.0, p_leaf=0.3, allow_gaps=True,
                   containers=['list', 'tuple', 'dict', 'point', 'defaultdict'],
                   dict_keys=['k', 'j', 3, 'key with space', 0])
   g = gen.DagGen(rng, opts)
